@@ -42,9 +42,11 @@ def oracle(case, rec, group):
         out.append(dict(op="block", key="raised:%s" % rec["exn"], what="oblivious program raised %s where the native program completes" % rec["exn"], msg=rec["msg"], native=want))
         return out
     got = rec["final_bvals"]
+    def norm(g):
+        if isinstance(g, list): return [norm(x) for x in g]
+        return g.get("lc", g.get("b")) if isinstance(g, dict) else g
     for v, w in want.items():
-        g = got.get("v%d" % v)
-        gv = g.get("lc", g.get("b")) if isinstance(g, dict) else g
+        gv = norm(got.get("v%d" % v))
         if gv != w:
             out.append(dict(op="block", key="value", what="variable x%d ends as %r with the oblivious constructs, %r with native control flow" % (v, gv, w), native=want, oblivious=got))
             break
@@ -66,8 +68,7 @@ def post(cov, cases, recs):
 
 
 def run(tier, seed):
-    return tracecheck.run(PID, tier, seed, {}, oracle, n_quick=150, n_thorough=3000, shrink_budget=4, variants=variants, casegen=casegen, post=post,
-                          require_props=False, level="translation_validation", mask=1 | 2 | 4 | 8)
+    return tracecheck.run(PID, tier, seed, {}, oracle, n_quick=150, n_thorough=3000, shrink_budget=4, variants=variants, casegen=casegen, post=post, mask=1 | 2 | 4 | 8)
 
 
 def replay(payload):
